@@ -219,4 +219,53 @@ theorem roundTrip_import_sigs (m o : ModuleM) (h : roundTripModule m = some o) :
           exact ⟨t', sg, hj, h1, by rw [hsigs]; exact h2⟩
         · cases h
 
+theorem mapM_some_map_key {α β : Type} (f : α → Option β) (ka : α → Nat) (kb : β → Nat)
+    (hk : ∀ a b, f a = some b → kb b = ka a) : ∀ (l : List α) (l' : List β),
+    l.mapM f = some l' → l'.map kb = l.map ka
+  | [], l', h => by simp at h; subst h; rfl
+  | a :: as, l', h => by
+    simp only [List.mapM_cons, Option.bind_eq_bind] at h
+    cases ha : f a with
+    | none => simp [ha] at h
+    | some b =>
+      cases hr : as.mapM f with
+      | none => simp [ha, hr] at h
+      | some bs =>
+        simp [ha, hr] at h
+        subst h
+        simp [hk a b ha, mapM_some_map_key f ka kb hk as bs hr]
+
+/-- the function ids of the emitted code section are pairwise distinct: the hypothesis of
+    `C19.emitted_function_index_exact` holds for what `emitCode` writes -/
+theorem emitCode_ids_nodup (c : InCode) (pfs : List ParsedFunc) (oc : OutCode)
+    (hp : parseCode c = some pfs) (he : emitCode c pfs = some oc) : (oc.funcs.map (·.id)).Nodup := by
+  obtain ⟨hlen, hspec⟩ := parseCode_spec c pfs hp
+  unfold emitCode emitCodeWith keepAll at he
+  simp only [Option.map_eq_some_iff] at he
+  obtain ⟨fs, hfs, rfl⟩ := he
+  simp only
+  have hmap := mapM_some_map_key _ (fun p : ParsedFunc × Nat => p.1.id) (fun f : OutFunc => f.id) (by
+    intro a b hab
+    split at hab
+    · injection hab with hab; subst hab; rfl
+    · cases hab) _ _ hfs
+  rw [hmap]
+  refine ((sortBy_perm _ _).map _).nodup_iff.2 ?_
+  rw [List.map_map]
+  -- ids of the parsed functions are importedFuncs + position
+  have hids : pfs.map (·.id) = (List.range pfs.length).map (c.importedFuncs + ·) := by
+    apply List.ext_getElem?
+    intro k
+    by_cases hk : k < pfs.length
+    · have hk' : k < c.funcs.length := hlen ▸ hk
+      obtain ⟨pf, hpf, hid, _⟩ := hspec k c.funcs[k] (by simp [hk'])
+      have hget : pfs[k] = pf := (List.getElem?_eq_some_iff.1 hpf).2
+      simp [hk, hget, hid]
+    · simp [hk]
+  have hnd : (pfs.map (·.id)).Nodup := by
+    rw [hids]
+    rw [← List.range'_eq_map_range]
+    exact List.nodup_range' (step := 1)
+  exact (List.Sublist.map _ List.filter_sublist).nodup hnd
+
 end Walrus
